@@ -26,25 +26,26 @@ type Obligation struct {
 	tx      *FnTx
 	Extra   []string // extra declarations-free assertions local to this obligation
 	// results
-	Status string // proved | failed | unknown | error
-	Solver string
-	TimeS  float64
-	Output string
-	Model  string
-	File   string
+	Status   string // proved | failed | unknown | error
+	Solver   string
+	TimeS    float64
+	Output   string
+	Model    string
+	File     string
 	replayed bool
 }
 
 type loopInfo struct {
-	header   *ssa.BasicBlock
-	ordinal  int
-	spec     *LoopSpec
-	pre      *State // merged state on loop entry
-	head     *State // havocked state at the head
-	phiHead  map[*ssa.Phi]Term
-	regions  []ModRegion
-	body     map[*ssa.BasicBlock]bool
-	decHead  string
+	header  *ssa.BasicBlock
+	ordinal int
+	spec    *LoopSpec
+	pre     *State // merged state on loop entry
+	head    *State // havocked state at the head
+	phiHead map[*ssa.Phi]Term
+	regions []ModRegion
+	body    map[*ssa.BasicBlock]bool
+	decHead string
+	havocAll bool
 }
 
 type FnTx struct {
@@ -70,19 +71,19 @@ type FnTx struct {
 	curReach string
 	curIdx   int
 
-	localAlloc map[*ssa.Alloc]bool
-	privFV     map[*ssa.FreeVar]bool
-	loops      map[*ssa.BasicBlock]*loopInfo
-	lets       map[string]Term
-	globals    map[*ssa.Global]int
-	nq         int
-	ncall      map[string]int
-	nsafe      map[string]int
-	notes      map[string]int // assumption notes for evidence
+	localAlloc  map[*ssa.Alloc]bool
+	privFV      map[*ssa.FreeVar]bool
+	loops       map[*ssa.BasicBlock]*loopInfo
+	lets        map[string]Term
+	globals     map[*ssa.Global]int
+	nq          int
+	ncall       map[string]int
+	nsafe       map[string]int
+	notes       map[string]int // assumption notes for evidence
 	unsupported []string
-	deferred   []*ssa.Defer
-	fnValSorts map[string][2][]types.Type // name -> (param types, result types)
-	retStates  []retPoint
+	deferred    []*ssa.Defer
+	fnValSorts  map[string][2][]types.Type // name -> (param types, result types)
+	retStates   []retPoint
 }
 
 type retPoint struct {
@@ -106,9 +107,9 @@ func ifaceKey(t types.Type, method string) string {
 func newFnTx(ld *Loaded, cs *Contracts, fn *ssa.Function, c *FnContract) *FnTx {
 	d := newDecls()
 	tx := &FnTx{ld: ld, prog: ld.Prog, cs: cs, fn: fn, c: c, key: fnKey(fn), d: d,
-		h:      &HeapEnv{d: d, comps: map[string]*Comp{}},
-		vals:   map[ssa.Value]Term{}, locs: map[ssa.Value]*Loc{}, tuples: map[ssa.Value][]Term{},
-		reach:  map[*ssa.BasicBlock]string{}, out: map[*ssa.BasicBlock]*State{},
+		h:    &HeapEnv{d: d, comps: map[string]*Comp{}},
+		vals: map[ssa.Value]Term{}, locs: map[ssa.Value]*Loc{}, tuples: map[ssa.Value][]Term{},
+		reach: map[*ssa.BasicBlock]string{}, out: map[*ssa.BasicBlock]*State{},
 		localAlloc: map[*ssa.Alloc]bool{}, privFV: map[*ssa.FreeVar]bool{}, loops: map[*ssa.BasicBlock]*loopInfo{},
 		lets: map[string]Term{}, globals: map[*ssa.Global]int{}, ncall: map[string]int{}, nsafe: map[string]int{},
 		notes: map[string]int{}, fnValSorts: map[string][2][]types.Type{}}
@@ -1000,6 +1001,11 @@ func (tx *FnTx) enterLoop(li *loopInfo, pre *State) *State {
 	}
 	// 2. havoc
 	head := pre.clone()
+	if (li.spec == nil || !li.spec.HasMod) && tx.loopWritesHeap(li) {
+		// no modifies clause: everything on the heap is unknown at the loop head
+		head = tx.h.havocAll(pre)
+		li.havocAll = true
+	}
 	if li.spec != nil && li.spec.HasMod {
 		env := tx.baseEnv(pre, tx.entry)
 		env.resolve = tx.resolverAt(li.header, li.phiHead, false)
@@ -1037,8 +1043,11 @@ func (tx *FnTx) enterLoop(li *loopInfo, pre *State) *State {
 		}
 	}
 	// ghost call counters may change inside the loop: havoc every ghost touched (conservatively all)
+	touched := tx.ghostsTouchedIn(li)
 	for k, g := range head.ghost {
-		head.ghost[k] = Term{S: tx.d.fresh("gh_"+k, g.Sort), Sort: g.Sort}
+		if touched(k) {
+			head.ghost[k] = Term{S: tx.d.fresh("gh_"+k, g.Sort), Sort: g.Sort, GT: g.GT}
+		}
 	}
 	li.head = head
 	// phis get their own constants
@@ -1072,6 +1081,116 @@ func (tx *FnTx) enterLoop(li *loopInfo, pre *State) *State {
 		tx.note("loop without invariant in " + tx.key + " (" + tx.loopName(li) + "): everything it assigns is unknown afterwards")
 	}
 	return head
+}
+
+// ghostsTouchedIn: which ghost keys may change inside the loop (call traces, captures, ghost_ensures of callees).
+func (tx *FnTx) ghostsTouchedIn(li *loopInfo) func(string) bool {
+	exact := map[string]bool{}
+	prefixes := []string{}
+	for bb := range li.body {
+		for _, in := range bb.Instrs {
+			call, ok := in.(*ssa.Call)
+			if !ok {
+				continue
+			}
+			cc := &call.Call
+			if _, isB := cc.Value.(*ssa.Builtin); isB {
+				continue
+			}
+			var desc string
+			var c *FnContract
+			switch {
+			case cc.IsInvoke():
+				desc = ifaceKey(cc.Value.Type(), cc.Method.Name())
+				c = tx.cs.Fns[desc]
+			case cc.StaticCallee() != nil:
+				desc = fnKey(cc.StaticCallee())
+				c = tx.cs.Fns[desc]
+			default:
+				n := fnValName(cc.Value)
+				desc = "dyn:" + n
+				exact["calls!"+n] = true
+				prefixes = append(prefixes, "lastarg!"+n+"!", "lastret!"+n+"!")
+			}
+			if c != nil {
+				ids := map[string]bool{}
+				for _, g := range c.GhostEns {
+					identsIn(g.E, ids)
+				}
+				for id := range ids {
+					exact[id] = true
+				}
+			}
+			if tx.c != nil {
+				for _, cp := range tx.c.Captures {
+					if strings.Contains(desc, cp.Pattern) {
+						exact["cap!"+cp.Name] = true
+					}
+				}
+			}
+		}
+	}
+	return func(k string) bool {
+		if exact[k] {
+			return true
+		}
+		for _, p := range prefixes {
+			if strings.HasPrefix(k, p) {
+				return true
+			}
+		}
+		return false
+	}
+}
+
+// loopWritesHeap: does the loop body contain an instruction that may write non-local memory?
+func (tx *FnTx) loopWritesHeap(li *loopInfo) bool {
+	for bb := range li.body {
+		for _, in := range bb.Instrs {
+			switch x := in.(type) {
+			case *ssa.Store:
+				root := rootAlloc(x.Addr)
+				if a, ok := root.(*ssa.Alloc); ok && tx.localAlloc[a] {
+					continue
+				}
+				if fv, ok := root.(*ssa.FreeVar); ok && tx.privFV[fv] {
+					continue
+				}
+				return true
+			case *ssa.MapUpdate, *ssa.Go, *ssa.Defer, *ssa.RunDefers, *ssa.Send:
+				return true
+			case *ssa.Call:
+				if b, ok := x.Call.Value.(*ssa.Builtin); ok {
+					switch b.Name() {
+					case "len", "cap", "min", "max", "print", "println":
+						continue
+					}
+					return true
+				}
+				if callee := x.Call.StaticCallee(); callee != nil {
+					if c := tx.cs.Fns[fnKey(callee)]; c != nil && c.Pure {
+						continue
+					}
+					pp := ""
+					if callee.Pkg != nil {
+						pp = callee.Pkg.Pkg.Path()
+					}
+					if noopPkgs[pp] || purePkgs[pp] {
+						continue
+					}
+				} else if x.Call.IsInvoke() {
+					if c := tx.cs.Fns[ifaceKey(x.Call.Value.Type(), x.Call.Method.Name())]; c != nil && c.Pure {
+						continue
+					}
+					if mp := x.Call.Method.Pkg(); mp != nil && (noopPkgs[mp.Path()] || purePkgs[mp.Path()]) {
+						continue
+					}
+				}
+				return true
+			}
+		}
+	}
+	return false
 }
 
 func rootAlloc(v ssa.Value) ssa.Value {
@@ -1131,6 +1250,9 @@ func (tx *FnTx) backEdge(u, h *ssa.BasicBlock, succIdx int, st *State) {
 		}
 	}
 	// frame of the loop body: heap outside the declared regions is unchanged w.r.t. loop entry
+	if li.havocAll {
+		return
+	}
 	tx.frameObligations("loopframe", fmt.Sprintf("%s@b%d", tx.loopName(li), u.Index), li.pre, st, li.regions, cond, false)
 }
 
